@@ -213,13 +213,13 @@ CLAIMS["C19"] = dict(
 
 CLAIMS["C20"] = dict(
     text="Theorems on the model of the input checks and of the coercion: accepted data have unique p_ids, valid non-self pointers, "
-         "group-constant group-level inputs and no duplicate column names (each fault class => rejection); a successful conversion never "
+         "group-constant group-level inputs and no duplicate column names, and in fault-injection form (ValidationFaults.v) every table carrying a missing / duplicate p_id, a dangling or self pointer in any pointer column, a varying group-level input or a duplicate column at ANY row is rejected whatever stands around it; a successful conversion never "
          "changes a numeric value (for all values), with a proved refutation of unchecked int->float beyond 2^53; the tax-unit builder "
          "rejects a table exactly when two spouses' joint-assessment flags differ, for tables of any size and any row positions "
          "(CoupleSpec.sn_id_accepts_iff). Tie: U9 compares "
          "convert_cell / accept with the real converter / checks; fault injection of every fault class (and pairs) through the public "
          "API at random rows must raise; dtype variants must leave all results unchanged and warn.",
-    technique="Coq proof (Validation.v) + differential correspondence U9 + fault injection through the public API",
+    technique="Coq proof (Validation.v, ValidationFaults.v, CoupleSpec.v) + differential correspondence U9 + fault injection through the public API",
     design="6/C20")
 
 ALL = [f"C{i:02d}" for i in range(1, 21)]
